@@ -318,7 +318,7 @@ def operations_follow_inplace_moves(S, op, how):
 from vf import loopcut, loopshape  # noqa: E402
 
 
-@contract(P, functions=[G + "rectangle_grid"], note="loop cut: both range loops replaced by one arbitrary (row, col); rows and columns SYMBOLIC")
+@contract(P, functions=[G + "rectangle_grid"], leak_ok=True, note="loop cut: both range loops replaced by one arbitrary (row, col); rows and columns SYMBOLIC")
 def rectangle_grid_any_size(S):
     """rectangle_grid(nrows, ncols) for symbolic nrows, ncols >= 1: the two nested `for .. in range(..)` loops (a flat map over
     index pairs; shape checked on the AST) are cut to one arbitrary iteration (row, col).  The piece produced there is the grid
